@@ -38,4 +38,4 @@ def unit_text(a):
 
 def run_text(ctx):
     q = ctx.quick
-    ctx.units("real-text", unit_text, [{"n": 500 if q else 6000, "seed": ctx.seed, "shard": i} for i in range(4 if q else 16)], procs=16)
+    ctx.units("real-text", unit_text, [{"n": 750 if q else 6000, "seed": ctx.seed, "shard": i} for i in range(8 if q else 16)], procs=16)
